@@ -547,7 +547,9 @@ func getTrafficControllerListFor(name string) []*TrafficShapingController {
 	return tcMap[name]
 }
 
-func calculateReuseIndexFor(r *Rule, oldResTcs []*TrafficShapingController) (equalIdx, reuseStatIdx int) {
+// laterRules are the rules that follow r in the list being loaded: an old controller that is equivalent to one of
+// them is going to be kept for that rule and must not lend its statistic to r.
+func calculateReuseIndexFor(r *Rule, oldResTcs []*TrafficShapingController, laterRules []*Rule) (equalIdx, reuseStatIdx int) {
 	// the index of equivalent rule in old traffic shaping controller slice
 	equalIdx = -1
 	// the index of statistic reusable rule in old traffic shaping controller slice
@@ -564,6 +566,16 @@ func calculateReuseIndexFor(r *Rule, oldResTcs []*TrafficShapingController) (equ
 		if !oldRule.isStatReusable(r) {
 			continue
 		}
+		reserved := false
+		for _, later := range laterRules {
+			if later != nil && oldRule.isEqualsTo(later) {
+				reserved = true
+				break
+			}
+		}
+		if reserved {
+			continue
+		}
 		if reuseStatIdx >= 0 {
 			// had find reuse rule.
 			continue
@@ -576,12 +588,12 @@ func calculateReuseIndexFor(r *Rule, oldResTcs []*TrafficShapingController) (equ
 // buildResourceTrafficShapingController builds TrafficShapingController slice from rules. the resource of rules must be equals to res
 func buildResourceTrafficShapingController(res string, rulesOfRes []*Rule, oldResTcs []*TrafficShapingController) []*TrafficShapingController {
 	newTcsOfRes := make([]*TrafficShapingController, 0, len(rulesOfRes))
-	for _, rule := range rulesOfRes {
+	for i, rule := range rulesOfRes {
 		if res != rule.Resource {
 			logging.Error(errors.Errorf("unmatched resource name expect: %s, actual: %s", res, rule.Resource), "Unmatched resource name in flow.buildResourceTrafficShapingController()", "rule", rule)
 			continue
 		}
-		equalIdx, reuseStatIdx := calculateReuseIndexFor(rule, oldResTcs)
+		equalIdx, reuseStatIdx := calculateReuseIndexFor(rule, oldResTcs, rulesOfRes[i+1:])
 
 		// First check equals scenario
 		if equalIdx >= 0 {
